@@ -18,12 +18,15 @@ def swarm(rng, faults):
                 # known findings excluded from the corpus: the mode of literal-valued references and the inputs of
                 # derived cells are not written (see known_findings.json); witnesses replay them
                 "no_literal_modes": True, "inputs_defined_only": True,
+                "same_path": rng.random() < 0.4, "p_edit": rng.choice([0.0, 0.7, 1.0]),
                 "enumerate": rng.random() < 0.2, "compression": rng.choice([zipfile.ZIP_DEFLATED, zipfile.ZIP_STORED])})
     # a reference value whose pickling / unpickling fails on command (the pickling operation as point of failure)
     cfg["bomb"] = bool(faults) and not cfg["enumerate"] and rng.random() < 0.4
     cfg["frames"] = rng.random() < 0.4
     return cfg
 
+
+EDIT_W = {"set_value": 4, "clear": 1.5, "set_ref": 1.5, "new_cells": 1, "del_cells": 1, "set_formula": 1, "new_space": 0.4, "rename_cells": 0.3}
 
 HIST_W = {"eval": 3, "set_ref": 2, "set_formula": 1.5, "new_cells": 1.5, "del_cells": 0.6, "rename_cells": 0.5, "set_cached": 0.7,
           "set_value": 2, "bases": 1, "new_space": 0.7, "rename_space": 0.3, "sformula": 0.5, "clear": 0.3}
@@ -98,7 +101,7 @@ class Session:
         for op in steps:
             if op["op"] == "queries":
                 self.queries = op["q"]
-            elif op["op"] in ("save", "load", "restart", "edit", "enum"):
+            elif op["op"] in ("save", "load", "restart", "edit", "enum", "c04edit"):
                 continue
             else:
                 mach.do(op, record=False)
@@ -210,21 +213,58 @@ def run_c04(ctx):
     if ctx.doc is None:
         ses.build()
         rng = ses.mach.rng
-        chain = []
-        for i in range(rng.choice([1, 2, 3])):
-            chain.append({"op": "save", "zip": rng.random() < 0.5, "i": i})
-        ctx.steps += chain
+        n = rng.choice([1, 2, 3])
+        # some chains save to ONE path again and again with edits in between (the archive or directory at a path is
+        # replaced by one with other members): what is read is the model as last written, never a mix with what the path
+        # held before
+        same_path = ses.cfg.get("same_path", False)
+        plan = []
+        for i in range(n):
+            if i and rng.random() < ses.cfg.get("p_edit", 0.0):
+                plan.append({"op": "c04edit", "n": rng.choice([1, 2, 4])})
+            plan.append({"op": "save", "zip": rng.random() < 0.5, "i": i, "slot": 0 if same_path else i})
+        if same_path:
+            z = rng.random() < 0.6
+            for st in plan:
+                if st["op"] == "save":
+                    st["zip"] = z
+        chain = plan
+        generating = True
     else:
         ses.replay_build(ctx.doc["steps"])
-        chain = [s for s in ctx.doc["steps"] if s["op"] == "save"]
+        chain = [s for s in ctx.doc["steps"] if s["op"] in ("save", "c04edit")]
+        generating = False
     mach = ses.mach
     m = mach.world.m
     world, ref = mach.world, mach.ref
     ctx.events = ses.events
     for st in chain:
+        if st["op"] == "c04edit":
+            if generating:
+                ops = []
+                for _ in range(st["n"]):
+                    op = mach.next_op(EDIT_W)
+                    if op is None:
+                        continue
+                    mach.do(op, record=False)
+                    ops.append(op)
+                st = {"op": "c04edit", "ops": ops}
+            else:
+                for op in st.get("ops", []):
+                    mach.do(op, record=False)
+            if generating:
+                ctx.steps.append(st)
+            ses.ev("edit %d ops" % len(st.get("ops", [])))
+            ctx.count("edits_between_saves", len(st.get("ops", [])), "reach")
+            continue
+        if generating:
+            ctx.steps.append(st)
         i = st["i"]
         is_zip = st["zip"]
-        path = os.path.join(ses.dir, "rt%d%s" % (i, ".zip" if is_zip else ""))
+        slot = st.get("slot", i)
+        path = os.path.join(ses.dir, "rt%d%s" % (slot, ".zip" if is_zip else ""))
+        if slot != i:
+            ctx.count("saved_again_to_a_path_already_read", 1, "reach")
         ans0 = ses.answers(world, ref)
         d0 = desc_of(m)
         import hashlib, json as _json
@@ -240,7 +280,7 @@ def run_c04(ctx):
         if str(m.path) != path:
             raise Violation("C04/path-not-updated", {"path": str(m.path), "want": path})
         # the other container format holds the same files
-        other = os.path.join(ses.dir, "rt%d_other%s" % (i, "" if is_zip else ".zip"))
+        other = os.path.join(ses.dir, "rt%d_other%s" % (slot, "" if is_zip else ".zip"))
         err = ses.save(m, other, not is_zip)
         if err is None:
             la, lb = ses.listing(path), ses.listing(other)
